@@ -81,10 +81,7 @@ func (c RCallGraph) buildRCallChain(funcName string, methodMap map[string][]stri
 	if len(methodMap[funcName]) > 0 {
 		var arrayResult = ""
 		for _, child := range methodMap[funcName] {
-			if child == lastChild {
-				return ""
-			}
-			if len(methodMap[child]) > 0 {
+			if len(methodMap[child]) > 0 && child != lastChild && child != funcName {
 				lastChild = child
 				arrayResult = arrayResult + c.buildRCallChain(child, methodMap)
 			}
